@@ -60,10 +60,13 @@ PROPS["C03"] = dict(
                         "template::lemma_bounded_loop_makes_exactly_n_passes"]),
            dict(name="scope", template="contracts/C03/scope.vrs", expect=["<Scope<P> as Component<P>>::execute"]),
            dict(name="run", template="contracts/C03/run.vrs", expect=["Configuration<P>::run"]),
-           dict(name="inner_state", template="contracts/C03/inner_state.vrs", expect=["State<'a, P>::with_inner_state"])],
+           dict(name="inner_state", template="contracts/C03/inner_state.vrs", expect=["State<'a, P>::with_inner_state"]),
+           dict(name="builder", template="contracts/C03/builder.vrs",
+                expect=["ConfigurationBuilder<P>::while_", "ConfigurationBuilder<P>::if_else_", "ConfigurationBuilder<P>::scope_",
+                        "ConfigurationBuilder<P>::build"])],
     kani=[],
-    min_obligations={"quick": 16, "thorough": 16},
-    uncovered=["builder sugar (do_/while_/if_/scope_ -> Block/Loop/Branch/Scope) is not under contract",
+    min_obligations={"quick": 26, "thorough": 26},
+    uncovered=["the node constructors Loop::new / Branch::new / Block::new / Scope::new themselves (abstract node terms in the builder unit); do_many_",
                "the meta-step 'node obligations => all trees' is structural induction, stated not machine-checked",
                "Loop::execute is proved for partial correctness (a loop over an arbitrary condition need not terminate)"],
     assumptions=["children are deterministic functions of (problem, state) (randomness lives in the state)",
@@ -155,7 +158,7 @@ PROPS["C13"] = dict(
                  "CBMC at concrete lengths with symbolic contents and index tuples under the functions' documented preconditions."),
     verus=[dict(name="params", template="contracts/C13/params.vrs", expect=["SwapMutation::from_params"])],
     kani=[dict(files=["contracts/C13/c13.rs"])],
-    min_obligations={"quick": 10, "thorough": 19},
+    min_obligations={"quick": 9, "thorough": 19},
     uncovered=["mutation components' execute (State + RNG)", "recombination() driver", "real/bit mutations gated by the rate"],
 )
 PROPS["C14"] = dict(
@@ -163,7 +166,7 @@ PROPS["C14"] = dict(
     explanation=("Hoare triples on the real BoundaryConstraint::constrain implementations, one coordinate, domain and coordinate "
                  "symbolic f64 within the stated regime; termination by unwinding assertion."),
     verus=[], kani=[dict(files=["contracts/C14/c14.rs"])],
-    min_obligations={"quick": 12, "thorough": 16},
+    min_obligations={"quick": 12, "thorough": 15},
     uncovered=["initialisation operators (rejection-sampling loops over a symbolic RNG are unbounded)", "resampling distribution",
                "boundary_constraint driver over populations"],
 )
@@ -175,7 +178,7 @@ PROPS["C12"] = dict(
     verus=[dict(name="driver", template="contracts/C12/driver.vrs", expect=["replacement"]),
            dict(name="mu_plus_lambda", template="contracts/C12/mu_plus_lambda.vrs", expect=["<MuPlusLambda as Replacement<P>>::replace"])],
     kani=[dict(files=["contracts/C12/c12.rs"])],
-    min_obligations={"quick": 20, "thorough": 22},
+    min_obligations={"quick": 30, "thorough": 34},
     uncovered=["KeepBetterAtIndex (ensure! => Kani ICE; iterator chain => Verus rejects)"],
 )
 
